@@ -31,6 +31,7 @@ type jobSpec struct {
 	Hi     int    `json:"hi"`
 	Alpha  int    `json:"alpha"` // 8 or 256 (subst alphabet for tx bases)
 	Hex    string `json:"hex,omitempty"`
+	Tail   string `json:"tail,omitempty"` // raw jobs: bytes that follow the case within the slice's capacity
 	DoHash bool   `json:"dohash,omitempty"`
 	Thor   bool   `json:"thor"`
 }
@@ -41,6 +42,7 @@ type viol struct {
 }
 
 type caseResult struct {
+	Tail  []byte // the capacity tail that exposed a cap/ finding
 	Class string // outcome class
 	Shape string // shape signature of the decoded object
 	Viol  []viol
@@ -52,6 +54,7 @@ type caseResult struct {
 type violAgg struct {
 	Count  int    `json:"count"`
 	Hex    string `json:"hex"`
+	Tail   string `json:"tail,omitempty"`
 	DoHash bool   `json:"dohash"`
 	Kind   string `json:"kind"`
 	What   string `json:"what"`
@@ -264,7 +267,31 @@ func compareTx(tx *btc.Tx, rt *reftx.Tx, raw []byte, hashes bool, wtxidMayBeZero
 
 var memA, memB runtime.MemStats
 
-func evalTx(b []byte) (res caseResult) {
+// stage tells the parent which API is about to run (hang attribution): 'n' NewTx,
+// 't' TxSize, 'b' NewBlock/BuildTxListExt, 'v' VLen/VULe.
+var stage = func(c byte) {}
+
+// spare returns the case as a slice whose capacity extends over tail: b[:len] of a longer
+// backing array, the way a transaction sits inside a block or a network buffer.
+func spare(c, tail []byte) []byte {
+	back := make([]byte, len(c)+len(tail))
+	copy(back, c)
+	copy(back[len(c):], tail)
+	return back[:len(c)]
+}
+
+func tails(cont []byte) (t [][]byte, names []string) {
+	if len(cont) > 0 {
+		t, names = append(t, cont), append(names, "continuation of the data")
+	}
+	ff := make([]byte, 16)
+	for i := range ff {
+		ff[i] = 0xff
+	}
+	return append(t, ff, make([]byte, 16)), append(names, "16 x ff", "16 x 00")
+}
+
+func evalTx(b []byte, cont []byte) (res caseResult) {
 	res.Len = len(b)
 	add := func(k, w string) {
 		for _, v := range res.Viol {
@@ -285,6 +312,7 @@ func evalTx(b []byte) (res caseResult) {
 	copy(in, b)
 	var tx *btc.Tx
 	var n int
+	stage('n')
 	runtime.ReadMemStats(&memA)
 	p := try("NewTx", func() { tx, n = btc.NewTx(in) })
 	runtime.ReadMemStats(&memB)
@@ -338,12 +366,6 @@ func evalTx(b []byte) (res caseResult) {
 				add("accept/consumed-mismatch", fmt.Sprintf("NewTx consumed %d bytes, reference %d", n, rn))
 			} else {
 				compareTx(tx, rt, b[:rn], true, false, add)
-				var ts int
-				if p := try("TxSize", func() { ts = btc.TxSize(in) }); p != "" {
-					add("panic/"+p, "panic out of btc.TxSize")
-				} else if ts != rn {
-					add("size/txsize-mismatch", fmt.Sprintf("TxSize()=%d want %d", ts, rn))
-				}
 			}
 			res.Shape = shapeOf(len(rt.In), len(rt.Out), rt.HasWitness())
 		}
@@ -352,10 +374,137 @@ func evalTx(b []byte) (res caseResult) {
 		res.Shape = shapeOf(len(rt.In), len(rt.Out), rt.HasWitness())
 	}
 	res.Class = "ref=" + errClass(rerr) + "/impl=" + implCl
+	// TxSize on every input: must return, stay inside the buffer, and give the consumed
+	// size for what the reference accepts
+	tsA := -1
+	stage('t')
+	if p := try("TxSize", func() { tsA = btc.TxSize(in) }); p != "" {
+		add("panic/"+p, "panic out of btc.TxSize")
+	} else if tsA < 0 || tsA > len(b) {
+		add("size/txsize-beyond-buffer", fmt.Sprintf("TxSize()=%d for a %d-byte input", tsA, len(b)))
+	} else if rerr == nil && tsA != rn {
+		add("size/txsize-mismatch", fmt.Sprintf("TxSize()=%d want %d", tsA, rn))
+	}
+	// the same bytes as b[:len] of a longer backing array: nothing may depend on what lies
+	// between len and cap
+	var serA []byte
+	if acc && !hasNilElement(tx) {
+		try("SerializeNew", func() { serA = tx.SerializeNew() })
+	}
+	tl, tn := tails(cont)
+	for ti, t := range tl {
+		in2 := spare(b, t)
+		var tx2 *btc.Tx
+		var n2 int
+		stage('n')
+		if p := try("NewTx", func() { tx2, n2 = btc.NewTx(in2) }); p != "" {
+			add("panic/"+p, "panic out of btc.NewTx")
+			continue
+		}
+		acc2 := tx2 != nil && n2 > 0
+		var ser2 []byte
+		if acc2 && !hasNilElement(tx2) {
+			try("SerializeNew", func() { ser2 = tx2.SerializeNew() })
+		}
+		if acc2 != acc || (acc && (n2 != n || !bytes.Equal(ser2, serA))) || n2 > len(b) {
+			add("cap/NewTx-reads-beyond-len", fmt.Sprintf("btc.NewTx on a %d-byte slice with cap==len gives (tx!=nil: %v, consumed %d); the same slice taken from a longer array (cap-len = %d: %s) gives (tx!=nil: %v, consumed %d): the decoder reads bytes between len and cap (b[offs:offs+4] may extend to the capacity)", len(b), tx != nil, n, len(t), tn[ti], tx2 != nil, n2))
+			if res.Tail == nil {
+				res.Tail = t
+			}
+		}
+		ts2 := -1
+		stage('t')
+		if p := try("TxSize", func() { ts2 = btc.TxSize(in2) }); p != "" {
+			add("panic/"+p, "panic out of btc.TxSize")
+		} else if ts2 != tsA {
+			add("cap/TxSize-reads-beyond-len", fmt.Sprintf("btc.TxSize on a %d-byte slice with cap==len gives %d; the same slice taken from a longer array (%s) gives %d", len(b), tsA, tn[ti], ts2))
+			res.Tail = t
+		}
+	}
 	return
 }
 
-func evalBlock(b []byte, dohash bool) (res caseResult) {
+// evalVlen: btc.VLen / btc.VULe against the CompactSize definition (shortest form only,
+// complete within len), with exact and spare capacity.
+func evalVlen(b []byte) (res caseResult) {
+	res.Len = len(b)
+	add := func(k, w string) {
+		for _, v := range res.Viol {
+			if v.Key == k {
+				return
+			}
+		}
+		res.Viol = append(res.Viol, viol{k, w})
+	}
+	var want uint64
+	wn := 0
+	if len(b) > 0 {
+		switch {
+		case b[0] < 0xfd:
+			want, wn = uint64(b[0]), 1
+		case b[0] == 0xfd && len(b) >= 3:
+			if v := uint64(b[1]) | uint64(b[2])<<8; v >= 0xfd {
+				want, wn = v, 3
+			}
+		case b[0] == 0xfe && len(b) >= 5:
+			if v := uint64(b[1]) | uint64(b[2])<<8 | uint64(b[3])<<16 | uint64(b[4])<<24; v >= 0x10000 {
+				want, wn = v, 5
+			}
+		case b[0] == 0xff && len(b) >= 9:
+			var v uint64
+			for i := 0; i < 8; i++ {
+				v |= uint64(b[1+i]) << uint(8*i)
+			}
+			if v >= 0x100000000 {
+				want, wn = v, 9
+			}
+		}
+	}
+	res.Class = fmt.Sprintf("vlen/ref-width-%d", wn)
+	tl, tn := tails(nil)
+	ins := [][]byte{append(make([]byte, 0, len(b)), b...)}
+	names := []string{"cap==len"}
+	for i, t := range tl {
+		ins, names = append(ins, spare(b, t)), append(names, tn[i])
+	}
+	stage('v')
+	for i, in := range ins {
+		var le, n, n2 int
+		var ule uint64
+		if p := try("VLen", func() { le, n = btc.VLen(in); ule, n2 = btc.VULe(in) }); p != "" {
+			add("panic/"+p, "panic out of btc.VLen / btc.VULe")
+			continue
+		}
+		if n != wn || (wn > 0 && le != int(want)) || (wn == 0 && le != 0) {
+			add("cs/VLen-mismatch", fmt.Sprintf("btc.VLen(%x) (%s) = (%d, %d), want (%d, %d)", b, names[i], le, n, int(want), wn))
+		}
+		if n2 != wn || ule != want {
+			add("cs/VULe-mismatch", fmt.Sprintf("btc.VULe(%x) (%s) = (%d, %d), want (%d, %d)", b, names[i], ule, n2, want, wn))
+		}
+	}
+	if wn > 0 { // writers give back the shortest form
+		res.Shape = fmt.Sprintf("width%d", wn)
+		try("writers", func() {
+			var w bytes.Buffer
+			btc.WriteVlen(&w, want)
+			buf := make([]byte, 9)
+			k := btc.PutULe(buf, want)
+			if !bytes.Equal(w.Bytes(), b[:wn]) || !bytes.Equal(buf[:k], b[:wn]) || btc.VLenSize(want) != wn {
+				add("cs/writer-mismatch", fmt.Sprintf("WriteVlen/PutULe/VLenSize(%d) give %x / %x / %d, want %x", want, w.Bytes(), buf[:k], btc.VLenSize(want), b[:wn]))
+			}
+			if want <= 0xffffffff {
+				k := btc.PutVlen(buf, int(want))
+				if !bytes.Equal(buf[:k], b[:wn]) {
+					add("cs/writer-mismatch", fmt.Sprintf("PutVlen(%d) gives %x, want %x", want, buf[:k], b[:wn]))
+				}
+			}
+		})
+	}
+	res.Acc = wn > 0
+	return
+}
+
+func evalBlockExact(b []byte, dohash bool) (res caseResult) {
 	res.Len = len(b)
 	add := func(k, w string) {
 		for _, v := range res.Viol {
@@ -370,12 +519,13 @@ func evalBlock(b []byte, dohash bool) (res caseResult) {
 	copy(in, b)
 	var bl *btc.Block
 	var err error
-	stage := "NewBlock"
+	stg := "NewBlock"
+	stage('b')
 	runtime.ReadMemStats(&memA)
 	p := try("block", func() {
 		bl, err = btc.NewBlock(in)
 		if err == nil {
-			stage = "BuildTxListExt"
+			stg = "BuildTxListExt"
 			err = bl.BuildTxListExt(dohash)
 		}
 	})
@@ -384,14 +534,14 @@ func evalBlock(b []byte, dohash bool) (res caseResult) {
 	if p != "" {
 		msg := strings.TrimPrefix(p, "block:")
 		switch {
-		case stage == "NewBlock" && len(b) < 80 && strings.Contains(msg, "slice bounds out of range"):
+		case stg == "NewBlock" && len(b) < 80 && strings.Contains(msg, "slice bounds out of range"):
 			add("block/short-input-panic", "btc.NewBlock panics on an input shorter than 80 bytes: it evaluates NewSha2Hash(data[:80]) before UpdateContent checks the length ("+msg+")")
-		case stage == "BuildTxListExt" && strings.Contains(msg, "makeslice"):
+		case stg == "BuildTxListExt" && strings.Contains(msg, "makeslice"):
 			add("block/txcount-makeslice-panic", "Block.BuildTxListExt panics: make([]*Tx, TxCount) with a negative / out-of-range count taken from the wire ("+msg+")")
-		case stage == "BuildTxListExt" && strings.Contains(msg, "nil pointer") && blockHasNilElement(in):
+		case stg == "BuildTxListExt" && strings.Contains(msg, "nil pointer") && blockHasNilElement(in):
 			add(nilKey, "a transaction inside the block decodes (btc.NewTx) to a Tx holding a nil *TxIn/*TxOut (element decoder hit the end of the buffer, failure ignored); Block.BuildTxListExt then panics out of the API: "+msg)
 		default:
-			add("panic/"+stage+":"+msg, "panic out of btc."+stage)
+			add("panic/"+stg+":"+msg, "panic out of btc."+stg)
 		}
 		res.Class = "ref=" + blockErrClass(rerr) + "/impl=panic"
 		return
@@ -478,6 +628,57 @@ func evalBlock(b []byte, dohash bool) (res caseResult) {
 	return
 }
 
+// blockSummary decodes a block and condenses everything the API reports.
+func blockSummary(in []byte, dohash bool) (sum string, pan string) {
+	pan = try("block", func() {
+		bl, err := btc.NewBlock(in)
+		if err == nil {
+			err = bl.BuildTxListExt(dohash)
+		}
+		if err != nil {
+			sum = "refused"
+			return
+		}
+		var ser []byte
+		for _, tx := range bl.Txs {
+			if tx == nil || hasNilElement(tx) {
+				ser = append(ser, "<nil>"...)
+				continue
+			}
+			ser = append(ser, tx.SerializeNew()...)
+			ser = append(ser, tx.Hash.Hash[:]...)
+			ser = append(ser, byte(len(tx.Raw)), byte(len(tx.Raw)>>8))
+		}
+		sum = fmt.Sprintf("accepted: %d txs, weight %d, content %x", len(bl.Txs), bl.BlockWeight, reftx.DSha(ser))
+	})
+	return
+}
+
+func evalBlock(b []byte, cont []byte, dohash bool) (res caseResult) {
+	res = evalBlockExact(b, dohash)
+	if len(res.Viol) > 0 && strings.HasSuffix(res.Class, "impl=panic") {
+		return
+	}
+	exact := make([]byte, len(b))
+	copy(exact, b)
+	stage('b')
+	sumA, _ := blockSummary(exact, dohash)
+	tl, tn := tails(cont)
+	for ti, t := range tl {
+		stage('b')
+		sum2, pan := blockSummary(spare(b, t), dohash)
+		if pan != "" {
+			sum2 = "panic out of the API: " + strings.TrimPrefix(pan, "block:")
+		}
+		if sum2 != sumA {
+			res.Viol = append(res.Viol, viol{"cap/block-reads-beyond-len", fmt.Sprintf("NewBlock+BuildTxListExt(%v) on a %d-byte slice with cap==len: %s; the same slice taken from a longer array (cap-len = %d: %s): %s", dohash, len(b), sumA, len(t), tn[ti], sum2)})
+			res.Tail = t
+			break
+		}
+	}
+	return
+}
+
 // blockHasNilElement walks the block's transactions with btc.NewTx alone.
 func blockHasNilElement(in []byte) (found bool) {
 	defer func() { recover() }()
@@ -541,6 +742,7 @@ func workerMain() {
 	sc := bufio.NewScanner(os.Stdin)
 	sc.Buffer(make([]byte, 1<<20), 64<<20)
 	dot := []byte{'.'}
+	stage = func(c byte) { out.Write([]byte{c}) }
 	for sc.Scan() {
 		var j jobSpec
 		if err := json.Unmarshal(sc.Bytes(), &j); err != nil {
@@ -573,21 +775,32 @@ func workerMain() {
 		}
 		for i := j.Lo; i < j.Hi; i++ {
 			out.Write(dot)
-			var c []byte
+			var c, cont []byte
 			dohash := j.DoHash
 			kind := "tx"
 			switch j.Kind {
 			case "tx":
 				c = txGen(getBase(j.Base, j.Thor), j.Fam, alpha, i)
+				cont = txTail(getBase(j.Base, j.Thor), j.Fam, i)
 			case "short":
 				c = shortGen(i)
+				cont = []byte{1, 0, 0, 0, 0, 0}
+			case "vlen":
+				c = vlenGen(i)
+				kind = "vlen"
 			case "block":
 				c, dohash = blockGen(&blocks[j.Base], j.Fam, i)
+				cont = blockTail(&blocks[j.Base], j.Fam, i)
 				kind = "block"
 			case "rawtx":
 				c, _ = hex.DecodeString(j.Hex)
+				cont, _ = hex.DecodeString(j.Tail)
+			case "rawvlen":
+				c, _ = hex.DecodeString(j.Hex)
+				kind = "vlen"
 			case "rawblock":
 				c, _ = hex.DecodeString(j.Hex)
+				cont, _ = hex.DecodeString(j.Tail)
 				kind = "block"
 			}
 			bigAlloc := false
@@ -595,10 +808,13 @@ func workerMain() {
 				agg.Skipped++
 			} else {
 				var r caseResult
-				if kind == "tx" {
-					r = evalTx(c)
-				} else {
-					r = evalBlock(c, dohash)
+				switch kind {
+				case "tx":
+					r = evalTx(c, cont)
+				case "vlen":
+					r = evalVlen(c)
+				default:
+					r = evalBlock(c, cont, dohash)
 				}
 				bigAlloc = r.Alloc > 32<<20
 				agg.Evals++
@@ -621,12 +837,16 @@ func workerMain() {
 				for _, v := range r.Viol {
 					a := agg.Viol[v.Key]
 					hx := hex.EncodeToString(c)
+					tl := ""
+					if strings.HasPrefix(v.Key, "cap/") || r.Tail != nil {
+						tl = hex.EncodeToString(r.Tail)
+					}
 					if a == nil {
-						agg.Viol[v.Key] = &violAgg{Count: 1, Hex: hx, DoHash: dohash, Kind: kind, What: v.What}
+						agg.Viol[v.Key] = &violAgg{Count: 1, Hex: hx, Tail: tl, DoHash: dohash, Kind: kind, What: v.What}
 					} else {
 						a.Count++
 						if len(hx) < len(a.Hex) || (len(hx) == len(a.Hex) && hx < a.Hex) {
-							a.Hex, a.DoHash, a.What = hx, dohash, v.What
+							a.Hex, a.Tail, a.DoHash, a.What = hx, tl, dohash, v.What
 						}
 					}
 				}
@@ -634,7 +854,7 @@ func workerMain() {
 			if (i+1-batchLo) >= 256 || i+1 == j.Hi || bigAlloc {
 				emit(i + 1)
 			}
-			if bigAlloc && j.Kind != "rawtx" && j.Kind != "rawblock" {
+			if bigAlloc && !strings.HasPrefix(j.Kind, "raw") {
 				// A decode that allocated hundreds of megabytes leaves a heap whose reuse costs
 				// zeroing and GC scanning, and makes later out-of-memory deaths depend on
 				// history: retire, the parent continues the job in a fresh worker.
